@@ -357,7 +357,7 @@ CFG = {
     "prop_file": "Properties/C05.v",
     "run_modules": ["Verif.C05.Run"],
     "coq_dirs": ["C05"],
-    "n": {"quick": 5000, "thorough": 300000},
+    "n": {"quick": 4500, "thorough": 300000},
     "shard": 250,
     "max_report": 8,
     "shrink": False,          # cases are single operator applications: already minimal
